@@ -292,3 +292,11 @@ func hangSite(dump string) string {
 	}
 	return "unknown"
 }
+
+func TestGen(t *testing.T) {
+	if *fProp == "" {
+		t.Skip()
+	}
+	b, _ := json.Marshal(engineFor(*fProp).Gen(*fProp, *fSeed0, *fTier))
+	fmt.Println(string(b))
+}
